@@ -56,6 +56,17 @@ def iter_next(ex, st, r):
         raise Inconclusive('next() on native ' + it.tag)
     if isinstance(it, A) and len(it.f) == 3 and all(isinstance(x, S) for x in it.f):
         return rangeinc_next(ex, st, r, it)
+    if isinstance(it, A) and len(it.f) == 2 and all(isinstance(x, S) for x in it.f):
+        # Range<u32> { start, end }: yields start while start < end
+        start, end = it.f
+        lt = ex.binop(st, 'Lt', start, end)
+
+        def step(s2):
+            ex.assign_ref(s2, r, A((ex.binop(s2, 'Add', start, S(start.w, 1)), end)))
+            return some(start)
+        if lt.conc():
+            return step(st) if lt.v else none()
+        return Fork([(lt.v, step), (z3.Not(zbool(lt.v)), lambda s2: none())])
     if isinstance(it, A) and len(it.f) == 2 and isinstance(it.f[1], E) and it.f[1].v in ('None', 'Some'):
         # Peekable { iter, peeked: Option<Option<Item>> }
         peeked = it.f[1]
@@ -427,7 +438,7 @@ def s_slice_last(ex, st, fr, text, args):
     return some(Ref(r.fid, r.local, r.path + (('i', n - 1),)))
 
 
-@summary(r'^<(std::ops::)?RangeInclusive<.*> as IntoIterator>::into_iter$', 'RangeInclusive::into_iter: identity')
+@summary(r'^<(std::ops::)?Range(Inclusive)?<.*> as IntoIterator>::into_iter$', 'Range / RangeInclusive::into_iter: identity')
 def s_ri_into_iter(ex, st, fr, text, args):
     return args[0]
 
@@ -550,3 +561,136 @@ def s_default_generic(ex, st, fr, text, args):
     if f is None:
         raise Inconclusive('user state Default impl not found')
     return ('tailcall', FnP(f.name, 'fn', f), [])
+
+
+# ------------------------------------------------------------------------------------------------
+# Option combinators taking closures / fn items (higher-order: the callee is explored by the executor)
+
+def _call_any(ex, st, f, args):
+    """call a closure / fn item value; -> list of (state, value|PanicResult)"""
+    if isinstance(f, Ref):
+        f = ex.deref(st, f)
+    if not isinstance(f, FnP):
+        raise Inconclusive('call of %r' % (f,))
+    if f.kind == 'ctor':
+        return [(st, E(f.name, args) if f.name in ex.discr else A(args))]
+    if f.kind == 'ext':
+        h = ex.find_summary(f.name)
+        if h is None:
+            raise Inconclusive('call of external fn item ' + f.name)
+        r = h(ex, st, None, f.name, list(args))
+        if isinstance(r, (Fork, Multi)) or (isinstance(r, tuple) and r and r[0] == 'tailcall'):
+            raise Inconclusive('nested forking summary ' + f.name)
+        return [(st, r)]
+    a = list(args)
+    if f.kind == 'closure':
+        a = [ex.env_ref(st, f)] + a
+    out = []
+    for kind, s2, v in ex.call_fn(st, f.fn, a):
+        out.append((s2, v if kind == 'return' else PanicResult(str(v))))
+    return out
+
+
+def _split_bool(ex, results, on_true, on_false):
+    """results: (state, S bool); fork symbolic booleans with the solver"""
+    out = []
+    for s2, v in results:
+        if isinstance(v, PanicResult):
+            out.append((s2, v))
+        elif v.conc():
+            out.append((s2, on_true(s2) if v.v else on_false(s2)))
+        else:
+            okt, mt = ex.sat_under(s2, v.v)
+            okf, mf = ex.sat_under(s2, z3.Not(v.v))
+            if okt and okf:
+                s3 = s2.fork()
+                s3.pc.append(z3.Not(v.v))
+                s3.models = mf
+                out.append((s3, on_false(s3)))
+            if okt:
+                s2.pc.append(v.v)
+                s2.models = mt
+                out.append((s2, on_true(s2)))
+            elif okf:
+                s2.pc.append(z3.Not(v.v))
+                s2.models = mf
+                out.append((s2, on_false(s2)))
+    return out
+
+
+@summary(r'^(std::option::)?Option::<.*>::filter::<', 'Option::filter(pred): Some(x) if pred(&x) else None')
+def s_opt_filter(ex, st, fr, text, args):
+    o, f = args
+    if o.v == 'None':
+        return none()
+    k = '__tmp%d' % st.nfid
+    st.nfid += 1
+    st.root()[k] = o.f[0]
+    res = _call_any(ex, st, f, [Ref(0, k, ())])
+    return Multi(_split_bool(ex, res, lambda s: o, lambda s: none()))
+
+
+@summary(r'^(std::option::)?Option::<.*>::map_or::<', 'Option::map_or(default, f)')
+def s_opt_map_or(ex, st, fr, text, args):
+    o, d, f = args
+    if o.v == 'None':
+        return d
+    return Multi(_call_any(ex, st, f, [o.f[0]]))
+
+
+@summary(r'^(std::option::)?Option::<.*>::map::<', 'Option::map(f)')
+def s_opt_map(ex, st, fr, text, args):
+    o, f = args
+    if o.v == 'None':
+        return none()
+    return Multi([(s2, v if isinstance(v, PanicResult) else some(v)) for s2, v in _call_any(ex, st, f, [o.f[0]])])
+
+
+# ------------------------------------------------------------------------------------------------
+# thread-local Cells (hidden global state): the cell lives in the root frame of the explored state, so it is shared
+# by everything that runs in that state (lexers, clones, successive calls) exactly like a thread-local
+
+@summary(r'^(std::thread::)?LocalKey::<.*>::new$', 'thread_local!: a key identified by the constant that defines it')
+def s_tls_new(ex, st, fr, text, args):
+    owner = fr.fn if fr is not None else None
+    return Native('tlskey', (owner.name if owner else '?', owner.text_line if owner else 0))
+
+
+@summary(r'^(std::cell::)?Cell::<.*>::new$', 'Cell::new')
+def s_cell_new(ex, st, fr, text, args):
+    return A((args[0],))
+
+
+@summary(r'^(std::cell::)?Cell::<.*>::get$', 'Cell::get: copy of the content')
+def s_cell_get(ex, st, fr, text, args):
+    return ex.deref(st, args[0]).f[0]
+
+
+@summary(r'^(std::cell::)?Cell::<.*>::set$', 'Cell::set')
+def s_cell_set(ex, st, fr, text, args):
+    ex.assign_ref(st, args[0], A((args[1],)))
+    return UNIT
+
+
+@summary(r'^(std::cell::)?Cell::<.*>::replace$', 'Cell::replace')
+def s_cell_replace(ex, st, fr, text, args):
+    old = ex.deref(st, args[0]).f[0]
+    ex.assign_ref(st, args[0], A((args[1],)))
+    return old
+
+
+@summary(r'^(std::thread::)?LocalKey::<.*>::with::<', 'LocalKey::with(f): f(&cell) on the per-state cell, initialised from the const initialiser of the thread_local! (lazy initialisers are not modelled)')
+def s_tls_with(ex, st, fr, text, args):
+    key = args[0]
+    if isinstance(key, Ref):
+        key = ex.deref(st, key)
+    if not (isinstance(key, Native) and key.tag == 'tlskey'):
+        raise Inconclusive('LocalKey::with on %r' % (key,))
+    slot = '__tls_%s_%d' % key.p
+    if slot not in st.root():
+        inits = [f for f in ex.prog.fns if f.kind == 'const' and f.name.endswith('__RUST_STD_INTERNAL_INIT')]
+        if not inits:
+            raise Inconclusive('thread_local! with a lazy initialiser is not modelled')
+        near = min(inits, key=lambda f: abs(f.text_line - key.p[1]))
+        st.root()[slot] = ex.eval_const_fn(near, near.name)
+    return Multi(_call_any(ex, st, args[1], [Ref(0, slot, ())]))
